@@ -74,7 +74,7 @@ func (e *Engine) applyOptions(pi int, p *PatSpec) []res.Option {
 
 // startQE starts a query event from inside a callback.
 func (e *Engine) startQE(s *Submission, r res.Resource, arg string) {
-	q := &QEInfo{RName: r.ResourceName(), Group: s.Group, Start: time.Now()}
+	q := &QEInfo{RName: r.ResourceName(), Group: s.Group, Parallel: s.Parallel, Start: time.Now()}
 	if arg != "" {
 		q.Script = strings.Split(arg, ",")
 	}
